@@ -10,6 +10,7 @@ from .common import func, cls
 from .lifecycle import lifecycle_interp
 
 PROP = "C17"
+LEVEL = "model_checking"      # the number of ports is enumerated (0..4): bounded in that parameter, not counted as proved
 B = "aioswitcher.bridge."
 MIN_OBLIGATIONS = 200
 ASSUMPTIONS = [
